@@ -111,3 +111,39 @@ Check WatchProofs.watch_start_run.
 Print WatchProofs.watch_chain.
 Print Assumptions C15_watch_run_spec.
 Print Assumptions WatchProofs.engine_move_spec.
+
+(* ---- the human-vs-computer LOOP (Play.v, PlayProofs.v): the human's turns through the input layer,
+   the engine's turns through make_waterfall...; no crash, the invariant at every turn, every step
+   either a legal move of the rules (typed line accepted iff it names one; the engine moves iff the
+   rules give a move) or no change at all ---- *)
+From ChessV Require Play PlayProofs.
+
+Section C15_play.
+Variable T : ztable.
+Variables rook_t bishop_t : N -> N -> N.
+Hypothesis rook_t_ref : forall x o, x < 64 -> rook_t x o = Rays.rook_ref x o.
+Hypothesis bishop_t_ref : forall x o, x < 64 -> bishop_t x o = Rays.bishop_ref x o.
+
+Theorem C15_play_run_spec : forall player g events steps w,
+  1 <= gdepth g -> ReachWide.SoundW T rook_t bishop_t (N.to_nat (gdepth g)) (gboard g) ->
+  hd 0 (hm_stack (gboard g)) + N.of_nat (length events) + N.of_nat (N.to_nat (gdepth g)) < U8_MAX ->
+  fullmove (gboard g) + N.of_nat (length events) + N.of_nat (N.to_nat (gdepth g)) < FULLMOVE_MAX ->
+  Play.play_run T rook_t bishop_t player g events = (steps, w) ->
+  w <> Play.PCrash
+  /\ Forall (fun s => ReachWide.SoundW T rook_t bishop_t (N.to_nat (gdepth g)) (gboard (fst s))) steps
+  /\ Forall (fun s => gdepth (fst s) = gdepth g) steps
+  /\ PlayProofs.play_chain T rook_t bishop_t player g events steps
+  /\ (length steps <= length events)%nat
+  /\ (w = Play.PMate -> PvpProofs.ending_is (PlayProofs.last_game g steps) (Some Checkmate))
+  /\ (w = Play.PStalemate -> PvpProofs.ending_is (PlayProofs.last_game g steps) (Some Stalemate))
+  /\ (w = Play.PRunning -> length steps = length events /\ PlayProofs.goes_on (PlayProofs.last_game g steps)).
+Proof. exact (PlayProofs.play_run_spec T rook_t bishop_t rook_t_ref bishop_t_ref). Qed.
+End C15_play.
+
+Check @PlayProofs.play_step_spec.
+Check @PlayProofs.play_step_accepts_iff.
+Check @PlayProofs.play_step_engine_iff.
+Print PlayProofs.play_clause.
+Check PlayProofs.play_start_run.
+Print Assumptions C15_play_run_spec.
+Print Assumptions PlayProofs.play_step_engine_iff.
